@@ -5,7 +5,8 @@
    C15/Model.v that the correspondence check executes.  Every statement holds
    for every scalar type (reals and binary64 alike) and every environment. *)
 From Coq Require Import List NArith ZArith Bool String Ascii Reals.
-From T4V Require Import Base.Str Base.Scalar C15.Model C15.Proofs.
+From T4V Require Import Base.Str Base.Scalar C15.Model C15.Proofs C15.Canon C15.CanonProofs C15.LinkC12.
+From T4V Require C12.Model C12.Spec C12.ProofsCells.
 Import ListNotations.
 Open Scope string_scope.
 
@@ -172,6 +173,74 @@ Theorem C15_like_equals_expanded : forall (T : Type) (SC : Scalar T) (e : env (T
 Proof. exact @like_equals_expanded_full. Qed.
 Print Assumptions C15_like_equals_expanded.
 
+(* the card of the property text, literally: [canon_card] builds, from the text
+   "card that n stands for, then the BUT texts", the explicit card with every
+   keyword written once — material words from MAT / RHO or copied (a void card
+   has no density), one "imp:<particle> <value>" per particle with the last
+   value, the last FILL (with its transformation), LAT, TRCL and U groups — and
+   that card, as text, is parsed to the same cell as the LIKE card.  ([canon_card]
+   is undefined when the card cannot be written, e.g. MAT on a void base without
+   RHO, or a stray number after a keyword that is read ("U=3 7"); unread
+   keywords and their values (VOL=3) are dropped: see notes/C15.md.) *)
+Theorem C15_expansion_card : forall (T : Type) (SC : Scalar T) (e : env (T:=T)) (rank : nat)
+    (lat : option (list (Z * Z))) (x : card) (w : wcard) (c : cell (T:=T)),
+  canon_card SC e x = Ok w -> worker SC e rank lat x = Ok c ->
+  worker SC e rank lat (card_text w) = Ok c /\ worker_w SC e rank lat w = Ok c.
+Proof. exact @canon_card_parses. Qed.
+Print Assumptions C15_expansion_card.
+
+Theorem C15_like_expansion_card : forall (T : Type) (SC : Scalar T) (e : env (T:=T)) (tbl : table)
+    (rank : nat) (lat : option (list (Z * Z))) (mat0 g0 o : string) (n : Z) (d : nat)
+    (x : card) (w : wcard) (c : cell (T:=T)),
+  search_like (lower g0) = Some n -> denotes tbl n d x ->
+  canon_card SC e (apply_but x o) = Ok w ->
+  parse_one_cell SC (List.length tbl) e tbl rank lat (mat0, g0, o) = Ok c ->
+  worker SC e rank lat (card_text w) = Ok c /\ is_explicit (card_text w).
+Proof. exact @like_canon_card. Qed.
+Print Assumptions C15_like_expansion_card.
+
+(* "copying cell n and overriding the listed parameters": the keyword groups of
+   "options of the copied card, then the BUT list" are the two group lists one
+   after the other, so the constructed card takes FILL, LAT, TRCL, U, MAT, RHO
+   from the BUT list when it lists them and from the copied card otherwise, and
+   its IMP entries are the copied ones followed by the BUT list's *)
+Theorem C15_expansion_is_override : forall (T : Type) (SC : Scalar T) (e : env (T:=T))
+    (tb to : list string) (gb go : list (group (T:=T))),
+  groups SC e tb = Ok gb -> groups SC e to = Ok go ->
+  groups SC e (tb ++ to)%list = Ok (gb ++ go)%list /\
+  (forall sel, last_with sel (gb ++ go)%list =
+               match last_with sel go with Some g => Some g | None => last_with sel gb end) /\
+  flat_map (@imp_tokens T) (gb ++ go)%list
+  = (flat_map (@imp_tokens T) gb ++ flat_map (@imp_tokens T) go)%list.
+Proof. exact @canon_is_override. Qed.
+Print Assumptions C15_expansion_is_override.
+
+(* deck level: [tblc] holds, for every cell of the deck (LIKE or explicit), the
+   text of the card constructed for it — a deck without any LIKE card, every
+   keyword written once; whenever the LIKE deck parses, that deck parses to the
+   same cells (same order, same values, same skipped cells) *)
+Theorem C15_expansion_deck : forall (T : Type) (SC : Scalar T) (e : env (T:=T))
+    (tbl tblc : table) (cells : list (Z * cell (T:=T))),
+  NoDup (map fst tbl) -> canon_table SC e tbl tblc ->
+  parse_all SC e tbl = Ok cells -> parse_all SC e tblc = Ok cells.
+Proof. exact @canon_deck. Qed.
+Print Assumptions C15_expansion_deck.
+
+Example C15_example_expansion_deck :
+  canon_table RS (xenv 0%R 1%R) xtbl
+    [(1%Z, ("1 -1.0", " -1 ", "imp:n 0"));
+     (2%Z, ("2 -1.0", " -1 ", "imp:n 1"));
+     (3%Z, ("2 -2.5", " -1 ", "imp:n 1 *trcl 0"))] /\ NoDup (map fst xtbl).
+Proof. exact (example_canon_table RS 0%R 1%R). Qed.
+
+Example C15_example_expansion_card :
+  option_map (@card_text)
+    (match canon_card RS (xenv 0%R 1%R)
+             (apply_but (" 1 -1.0", " -1 ", x_ox) " rho = -2.5 *TRCL=( 0 )") with
+     | Ok w => Some w | Err _ => None end) =
+  Some ("2 -2.5", " -1 ", "imp:n 1 *trcl 0").
+Proof. exact (example_canon RS 0%R 1%R). Qed.
+
 (* BUT MAT=0 (fix ac9102a): with MAT=m in the BUT list, int(m) = 0, the copy is
    the cell of the explicit void card: material token m, no density, the other
    keywords (MAT and RHO exist in BUT lists only) *)
@@ -190,6 +259,39 @@ Theorem C15_like_mat_void : forall (T : Type) (SC : Scalar T) (e : env (T:=T)) (
    end).
 Proof. exact @like_mat_void. Qed.
 Print Assumptions C15_like_mat_void.
+
+(* ---- linked with C12 (importances) ---- *)
+
+(* C15's importance dictionary is C12's: on the same IMP entries (particles
+   named, value), the dictionary, the importance kept and the last value per
+   particle of C15's model are C12's assign_all / imp_of_entries / last_value *)
+Theorem C15_importance_dictionary_linked : forall (T : Type) (SC : Scalar T)
+    (es : list (list string * T)),
+  imp_dict (log_of es) = C12.ProofsCells.assign_all es [] /\
+  imp_value SC (log_of es) = C12.ProofsCells.imp_of_entries SC es /\
+  forall p, imp_last (log_of es) p = C12.Spec.last_value p es.
+Proof. exact @importance_dictionary_is_C12. Qed.
+Print Assumptions C15_importance_dictionary_linked.
+
+(* with C12's entries_zero_iff: the copy made by LIKE n BUT o has importance
+   zero (and is left out of the conversion) iff, for every particle named on the
+   cards of the chain or in the BUT list, the last value — the BUT list's if it
+   names the particle, else the inherited one — is zero *)
+Theorem C15_like_importance_zero_iff_linked : forall (P : C12.Model.prims R) (e : env (T:=R))
+    (tbl : table) (fuel rank : nat) (lat : option (list (Z * Z))) (mat0 g0 o : string) (n : Z)
+    (d : nat) (mx gx ox : string) (kb ko : kws (T:=R)) (c : cell (T:=R)),
+  search_like (lower g0) = Some n -> denotes tbl n d (mx, gx, ox) -> (d < fuel)%nat ->
+  sq_state false ox = false -> leads_colon o = false -> kw_head (tokenize o) ->
+  parse_kws RS e (tokenize ox) = Ok kb -> parse_kws RS e (tokenize o) = Ok ko ->
+  parse_one_cell RS fuel e tbl rank lat (mat0, g0, o) = Ok c ->
+  (k_impl kb ++ k_impl ko)%list <> [] ->
+  Forall (fun pv => 0 <= snd pv)%R (k_impl kb ++ k_impl ko)%list ->
+  (c_imp c = 0%R <->
+   forall p, In p (map fst (k_impl kb ++ k_impl ko)%list) ->
+             match imp_last (k_impl ko) p with Some v => Some v | None => imp_last (k_impl kb) p end
+             = Some 0%R).
+Proof. exact like_importance_zero_iff_linked. Qed.
+Print Assumptions C15_like_importance_zero_iff_linked.
 
 (* the two former counter-examples, now equalities: "2 like 1 but imp:n=0" on
    "1 1 -1.0 -1 imp:n=1 imp:p=0" is the card "1 -1.0 -1 imp:n=0 imp:p=0", and
